@@ -33,18 +33,28 @@ impl TooManyArgumentsWarning {
 pub struct CyclomaticComplexityWarning {
     definition_name: String,
     definition_type: DefinitionType,
+    file_id: Option<FileID>,
+    file_location: FileLocation,
 }
 
 impl CyclomaticComplexityWarning {
     pub fn into_report(self) -> Report {
-        Report::warning(
+        let mut report = Report::warning(
             format!(
                 "The {} `{}` is too complex and would benefit from being refactored into smaller components.",
                 self.definition_type,
                 self.definition_name
             ),
             ReportCode::CyclomaticComplexity,
-        )
+        );
+        if let Some(file_id) = self.file_id {
+            report.add_primary(
+                self.file_location,
+                file_id,
+                format!("This {} is too complex.", self.definition_type),
+            );
+        }
+        report
     }
 }
 
@@ -70,6 +80,8 @@ pub fn run_complexity_analysis(cfg: &Cfg) -> ReportCollection {
             CyclomaticComplexityWarning {
                 definition_name: cfg.name().to_string(),
                 definition_type: cfg.definition_type().clone(),
+                file_id: *cfg.parameters().file_id(),
+                file_location: cfg.parameters().file_location().clone(),
             }
             .into_report(),
         );
